@@ -13,7 +13,7 @@ Lemma inv_unX_dead_handle X W D T G s h :
 Proof.
   intros Hi Hd Hv.
   destruct Hi as [Aheap Amem1 Amem2 Aown Afresh Atag Adead Ainner Aitag Ainj Aiown Agin Apres Adev Abuf Acur Acurinj
-                  Ahand Avars Avinj AT ATnd Alive Alognd Alog AD Acs].
+                  Ahand Avars Avinj AT ATnd Alive Alognd Alog AD Acs Apb].
   constructor; try assumption.
   - intros x o sl Hin. destruct (Amem1 x o sl Hin) as [H1 H2]. split; [exact H1|]. intros H. apply H2. now right.
   - intros x o sl Ha Hx. apply Amem2; [exact Ha|]. intros [<-|H]; [congruence|contradiction].
@@ -29,7 +29,7 @@ Lemma inv_clear_var X W D T G s h v :
 Proof.
   intros Hi Hnx Hd Hv.
   destruct Hi as [Aheap Amem1 Amem2 Aown Afresh Atag Adead Ainner Aitag Ainj Aiown Agin Apres Adev Abuf Acur Acurinj
-                  Ahand Avars Avinj AT ATnd Alive Alognd Alog AD Acs].
+                  Ahand Avars Avinj AT ATnd Alive Alognd Alog AD Acs Apb].
   assert (Hvv : forall v' x, upd (vars s) v None v' = Some x -> vars s v' = Some x /\ v' <> v).
   { intros v' x. unfold upd. destruct (Nat.eqb_spec v' v); [discriminate|tauto]. }
   constructor; simpl_st; try assumption.
@@ -53,7 +53,7 @@ Lemma inv_bind_var X W D T G s t v :
 Proof.
   intros Hi Hv Ht Hnx.
   destruct Hi as [Aheap Amem1 Amem2 Aown Afresh Atag Adead Ainner Aitag Ainj Aiown Agin Apres Adev Abuf Acur Acurinj
-                  Ahand Avars Avinj AT ATnd Alive Alognd Alog AD Acs].
+                  Ahand Avars Avinj AT ATnd Alive Alognd Alog AD Acs Apb].
   assert (HtT : ~ In t T) by (apply NoDup_cons_iff in ATnd; tauto).
   assert (Hat : alive s t = true) by (apply AT; now left).
   assert (Hnv : forall v', vars s v' <> Some t).
@@ -201,7 +201,7 @@ Proof.
   erewrite bind_run by exact Hex1. rewrite (kill_run h s1 Hh1).
   pose proof Hsh1 as (E1 & Etag & Eal & Ehp & Evars & Eodev & Egin & Ecur & Euse & Edus & Emoff & Eps & Eoin & Eob).
   exists G1, (set_alive s1 (upd (alive s1) h false)). split; [reflexivity|]. split.
-  - replace (@nil nat) with (remove Nat.eq_dec h []) at 2 by reflexivity.
+  - change (inv [h] [] (remove Nat.eq_dec h []) (remove Nat.eq_dec h T) G1 (set_alive s1 (upd (alive s1) h false))).
     apply inv_kill; try assumption.
     + eapply exempt_free; [exact Hi1|now left].
     + apply (handle_rings vkind _ _ _ _ _ _ _ Hi1). rewrite Etag. now exists k.
